@@ -85,7 +85,10 @@ func GetMaxReplicaCountAndDeleteSlots(replicas int32, deleteSlots sets.Int32) (i
 		deleteSlotsCopy.Insert(k)
 	}
 	for _, deleteSlot := range deleteSlotsCopy.List() {
-		if deleteSlot < replicaCount {
+		if deleteSlot < 0 {
+			// not an ordinal: it can neither be skipped nor extend the range
+			deleteSlotsCopy.Delete(deleteSlot)
+		} else if deleteSlot < replicaCount {
 			replicaCount++
 		} else {
 			deleteSlotsCopy.Delete(deleteSlot)
